@@ -62,6 +62,11 @@ def main():
         copy = os.path.join(work, "src")
         sh(["rsync", "-a", "--exclude", "/_build", "--exclude", "/.git", REPO + "/", copy + "/"])
         bdir = os.path.join(work, "b")
+        if os.path.exists(os.path.join(seed, "NEEDS_KISSEL")):
+            # the change only manifests with the Kissel table present: regenerate it in the scratch copy (configuration B)
+            sh([sys.executable.replace("python3", "python3") if False else "python3-vt", os.path.join(VERIF, "tools", "regen_kissel.py"), copy,
+                os.path.join(copy, "data", "kissel_pe.dat")])
+            res["kissel_regenerated"] = True
         if not a.skip_confirm:
             ok0, log = suite(copy, bdir)
             res["clean_tests_ok"] = len(ok0) if ok0 is not None else None
